@@ -1,5 +1,5 @@
 //! C19 — lint reports are complete, ordered by line, and linting never fails.
-use super::{c02, c09, corpus};
+use super::{c02, c09, c18, corpus};
 use crate::engine::space::Space;
 use crate::engine::*;
 use crate::refmodel::grammar::render;
@@ -13,7 +13,7 @@ use std::rc::Rc;
 pub const DEF: PropDef = PropDef {
     id: "C19",
     level: "exploration",
-    rule: "(1) every program of the reference grammar's canonical corpus (all statement kinds in three contexts, operator chains, lists, calls), the hand-written corpus, and all degenerate-poetic / stray-control programs of C09; (2) the mention-sequence family: 12 templates that place up to 4 mentions in every traversal context (assignment target and operands, subscripts, list tails, call name and arguments, function name and parameters, conditions and blocks, mutation operand / destination / parameter, consecutive statements) x every filling from {x, X, the x, y, pronoun, a call fun taking x}; oracle: linting returns without panic in both builds, leaves the program (Debug rendering) untouched, equals the stable merge by line of the two passes run separately (pass order on ties), is identical for a second fresh linter, and the repeated-identifier diagnostics equal the reference mention rule computed by an independent field-order traversal (reported iff same spelling as the previous variable mention and not a callee name; callee names count as previous mentions; line of the mention); non-trivial = programs with at least two variable mentions; distinct = distinct text",
+    rule: "(1) every program of the reference grammar's canonical corpus (all statement kinds in three contexts, operator chains, lists, calls), the hand-written corpus, and all degenerate-poetic / stray-control programs of C09, every constant-assignment form x target x right-hand side of C18; (2) the mention-sequence family: 12 templates that place up to 4 mentions in every traversal context (assignment target and operands, subscripts, list tails, call name and arguments, function name and parameters, conditions and blocks, mutation operand / destination / parameter, consecutive statements) x every filling from {x, X, the x, y, pronoun, a call fun taking x}; oracle: linting returns without panic in both builds, leaves the program (Debug rendering) untouched, equals the stable merge by line of the two passes run separately (pass order on ties), is identical for a second fresh linter, and the repeated-identifier diagnostics equal the reference mention rule computed by an independent field-order traversal (reported iff same spelling as the previous variable mention and not a callee name; callee names count as previous mentions; line of the mention); (3) lint histories: all ordered pairs (thorough: also triples over a subset) of 67 programs linted one after the other on one fresh thread through cli::linter::lint and cli::linter::run — every result must equal what the program gives when linted alone; non-trivial = programs with at least two variable mentions / every history; distinct = distinct text",
     assumptions: &["'spells the same name' is exact spelling equality; sequences in which adjacent mentions differ only in letter case are skipped as unspecified", "callee and variable names are disjoint in the mention family"],
     build,
     exhaustive: true,
@@ -182,6 +182,24 @@ impl Mentions {
 pub struct C19 {
     corpus: Rc<Vec<String>>,
     mention: Space<(usize, Vec<usize>)>,
+    /// programs linted one after the other on one thread
+    history_set: Rc<Vec<String>>,
+    histories: Space<Vec<usize>>,
+}
+
+/// the programs histories are built from: mention templates whose first / last mentions coincide or
+/// differ, constant assignments with and without suggestions, a rejected text, an empty program
+fn history_set() -> Vec<String> {
+    let mut v = Vec::new();
+    for t in TEMPLATES {
+        for f in [[0usize, 0, 0, 0], [0, 3, 0, 3], [3, 3, 3, 3], [3, 0, 0, 3]] {
+            v.push(fill(t, &f));
+        }
+    }
+    for s in ["put 5 into x\n", "put -0 into x\n", "x is 5\nsay x\n", "say x\n", "say y\n", "say x at y\n", "fun taking x\n", "put \"s\" into y\n", "", "put into\n", "say 1\n"] {
+        v.push(s.to_string());
+    }
+    v
 }
 
 fn build(tier: Tier) -> Box<dyn Check> {
@@ -208,9 +226,21 @@ fn build(tier: Tier) -> Box<dyn Check> {
         texts.push(c);
         texts.push(format!("fun takes k\n{}\nwhile x\n{}\n", a, (0..n).map(|_| "say x\nput 0 into x\n").collect::<String>()));
     }
+    // every constant-assignment form x target x right-hand side of C18 (values with and without a poetic spelling)
+    for f in c18::FORMS {
+        for t in c18::TARGETS {
+            for e in c18::RHS {
+                texts.push(format!("{}\nsay 9\n", c18::fill(f, t, e)));
+            }
+        }
+    }
     let t: Space<usize> = Space::of((0..TEMPLATES.len()).collect());
     let m: Space<usize> = Space::of((0..MENTIONS.len()).collect());
-    Box::new(C19 { corpus: Rc::new(texts), mention: if tier == Tier::Thorough { Space::union(vec![t.product(&m.seq_exact(4), |t, v| (t, v)), t.product(&m.seq_exact(5), |t, v| (t, v))]) } else { t.product(&m.seq_exact(4), |t, v| (t, v)) } })
+    let hs = history_set();
+    let hidx: Space<usize> = Space::of((0..hs.len()).collect());
+    let small: Space<usize> = Space::of((0..hs.len()).step_by(4).collect());
+    let histories = if tier == Tier::Thorough { Space::union(vec![hidx.seq_exact(2), small.seq_exact(3)]) } else { hidx.seq_exact(2) };
+    Box::new(C19 { history_set: Rc::new(hs), histories, corpus: Rc::new(texts), mention: if tier == Tier::Thorough { Space::union(vec![t.product(&m.seq_exact(4), |t, v| (t, v)), t.product(&m.seq_exact(5), |t, v| (t, v))]) } else { t.product(&m.seq_exact(4), |t, v| (t, v)) } })
 }
 
 fn fill(t: &str, v: &[usize]) -> String {
@@ -235,21 +265,76 @@ impl C19 {
     fn text(&self, fam: usize, idx: u64) -> String {
         if fam == 0 {
             self.corpus[idx as usize].clone()
-        } else {
+        } else if fam == 1 {
             let (t, v) = self.mention.get(idx);
             fill(TEMPLATES[t], &v)
+        } else {
+            self.histories.get(idx).iter().map(|i| format!("{:?}", self.history_set[*i])).collect::<Vec<_>>().join(" then ")
+        }
+    }
+
+    /// a history of lint operations on one fresh thread, through the function-style entry points: every
+    /// result must equal what a fresh linter reports for that program alone
+    fn history_case(&self, idx: u64, ctx: &mut Ctx) {
+        let h: Vec<String> = self.histories.get(idx).iter().map(|i| self.history_set[*i].clone()).collect();
+        ctx.case_text(&h.join("\u{1}"));
+        ctx.nontrivial();
+        let hh = h.clone();
+        let run = std::thread::spawn(move || {
+            let mut out: Vec<(Option<Vec<String>>, Option<String>)> = Vec::new();
+            for text in &hh {
+                let a = rrss::cli::linter::lint(text).ok().map(|r| r.diags.iter().map(diag_key).collect::<Vec<_>>());
+                let b = rrss::cli::linter::run(text).ok().map(|o| format!("{}", o));
+                out.push((a, b));
+            }
+            out
+        })
+        .join();
+        let out = match run {
+            Ok(o) => o,
+            Err(_) => {
+                ctx.violation("panic", format!("{} build: linting panicked in the history {:?}: {}", config_name(), h, crate::engine::worker::take_panic()));
+                return;
+            }
+        };
+        for (k, text) in h.iter().enumerate() {
+            let tt = text.clone();
+            let fresh = std::thread::spawn(move || {
+                let a = rrss::frontend::parser::parse(&tt).ok().map(|p| standard_linter().run(&p).diags.iter().map(diag_key).collect::<Vec<_>>());
+                let b = rrss::cli::linter::run(&tt).ok().map(|o| format!("{}", o));
+                (a, b)
+            })
+            .join();
+            let fresh = match fresh {
+                Ok(f) => f,
+                Err(_) => {
+                    ctx.violation("panic", format!("{} build: linting {:?} alone panicked: {}", config_name(), text, crate::engine::worker::take_panic()));
+                    return;
+                }
+            };
+            ctx.observe_str(&format!("{:?}", fresh));
+            if out[k] != fresh {
+                ctx.violation(
+                    "lint-depends-on-history",
+                    format!("operation {} of the history {:?} (same thread, function-style entry points) reports {:?}, but the same program linted alone reports {:?}", k + 1, h, out[k], fresh),
+                );
+                return;
+            }
         }
     }
 }
 
 impl Check for C19 {
     fn families(&self) -> Vec<(String, u64)> {
-        vec![("corpus".into(), self.corpus.len() as u64), ("mention-sequences".into(), self.mention.len())]
+        vec![("corpus".into(), self.corpus.len() as u64), ("mention-sequences".into(), self.mention.len()), ("lint-histories".into(), self.histories.len())]
     }
     fn describe(&self, fam: usize, idx: u64) -> Value {
         json!({ "text": self.text(fam, idx) })
     }
     fn run_case(&self, fam: usize, idx: u64, ctx: &mut Ctx) {
+        if fam == 2 {
+            return self.history_case(idx, ctx);
+        }
         let text = self.text(fam, idx);
         ctx.case_text(&text);
         let prog = match rrss::frontend::parser::parse(&text) {
